@@ -120,6 +120,10 @@ def enumerate {α} (xs : List α) : List (Nat × α) := enumerateFrom 0 xs
 /-- `np.delete(arr, idx, axis=0)` for indices inside the array -/
 def npDelete {α} (arr : List α) (idx : List Nat) : List α := deleteIdx arr idx
 
+/-- `np.subtract(arr, k, out=arr, where=arr > i)` on a 2-D index array -/
+def npSubWhereGt (arr : List (List Nat)) (k i : Nat) : List (List Nat) :=
+  arr.map (fun row => row.map (fun x => if x > i then x - k else x))
+
 /-! insertion-ordered dicts are association lists with distinct keys -/
 
 /-- `k in d` -/
@@ -135,6 +139,8 @@ def dictAppend? {κ β} [DecidableEq κ] (d : List (κ × List β)) (k : κ) (x 
 def strIndex? (s : String) (i : Nat) : Option String := s.toList[i]?.map String.singleton
 /-- `s[i:j]` for constant `0 ≤ i`, `0 ≤ j` -/
 def strSlice (s : String) (i j : Nat) : String := String.ofList ((s.toList.take j).drop i)
+/-- `s[i:]` for a constant `i ≥ 0` -/
+def strDrop (s : String) (i : Nat) : String := String.ofList (s.toList.drop i)
 /-- `s.strip(cs)`: drop every leading and every trailing character that occurs in `cs` -/
 def strStrip (s cs : String) : String :=
   String.ofList (((s.toList.dropWhile (fun c => cs.toList.contains c)).reverse.dropWhile (fun c => cs.toList.contains c)).reverse)
@@ -363,14 +369,15 @@ def mofunCliTrace (find_path : Option String) (replace_path : Option String) (du
   (if (Option.isSome replicate) then
     ["atoms = atoms.replicate(replicate)"]
   else
-    (if (Option.isSome mic) then
-      (if cell_is_orthorhombic then
-        ["l4 = np.array(np.ceil(2 * mic / np.diag(atoms.cell)), dtype=int)",
-         "atoms = atoms.replicate(l4)"]
-      else
-        ["print('WARNING: Minimimum image convention is only implemented for orthorhombic structures, please use --replicate')"])
+    []) ++
+  (if (Option.isSome mic) then
+    (if cell_is_orthorhombic then
+      ["l4 = np.array(np.ceil(2 * mic / np.diag(atoms.cell)), dtype=int)",
+       "atoms = atoms.replicate(l4)"]
     else
-      [])) ++
+      ["print('WARNING: Minimimum image convention is only implemented for orthorhombic structures, please use --replicate')"])
+  else
+    []) ++
   (if pp then
     ["assign_pair_params_to_structure(atoms)"]
   else
@@ -416,5 +423,139 @@ def deleteIfAllInSet (arr : List (List Nat)) (s : List Nat) : List (List Nat) :=
         deletion_list
       )
   (Py.npDelete arr deletion_list)
+
+/-- translated from `extend_types` in mofun/atoms.py class Atoms: (the returned offsets, then the new value of every attribute of self it assigns, in the order elements, masses, labels, pair_coeffs, bond/angle/dihedral/improper coefficients); `np.append` of 1-D arrays is concatenation; `none` = an exception of a `num_*_types` property -/
+def extendTypes (atom_type_elements : List String) (atom_type_masses : List Rat) (atom_type_labels : List String) (pair_coeffs : List String) (bond_types : List Nat) (bond_type_coeffs : List String) (angle_types : List Nat) (angle_type_coeffs : List String) (dihedral_types : List Nat) (dihedral_type_coeffs : List String) (improper_types : List Nat) (improper_type_coeffs : List String) (other_atom_type_elements : List String) (other_atom_type_masses : List Rat) (other_atom_type_labels : List String) (other_pair_coeffs : List String) (other_bond_type_coeffs : List String) (other_angle_type_coeffs : List String) (other_dihedral_type_coeffs : List String) (other_improper_type_coeffs : List String) : Option ((Nat × Nat × Nat × Nat × Nat) × (List String) × (List Rat) × (List String) × (List String) × (List String) × (List String) × (List String) × (List String)) := do
+  let t1 ← (numBondTypes bond_types bond_type_coeffs)
+  let t2 ← (numAngleTypes angle_types angle_type_coeffs)
+  let t3 ← (numDihedralTypes dihedral_types dihedral_type_coeffs)
+  let t4 ← (numImproperTypes improper_types improper_type_coeffs)
+  let offsets_0 : Nat := (numAtomTypes atom_type_elements)
+  let offsets_1 : Nat := t1
+  let offsets_2 : Nat := t2
+  let offsets_3 : Nat := t3
+  let offsets_4 : Nat := t4
+  let atom_type_elements' : List String := (atom_type_elements ++ other_atom_type_elements)
+  let atom_type_masses' : List Rat := (atom_type_masses ++ other_atom_type_masses)
+  let atom_type_labels' : List String := (atom_type_labels ++ other_atom_type_labels)
+  let pair_coeffs' : List String := (pair_coeffs ++ other_pair_coeffs)
+  let bond_type_coeffs' : List String := (bond_type_coeffs ++ other_bond_type_coeffs)
+  let angle_type_coeffs' : List String := (angle_type_coeffs ++ other_angle_type_coeffs)
+  let dihedral_type_coeffs' : List String := (dihedral_type_coeffs ++ other_dihedral_type_coeffs)
+  let improper_type_coeffs' : List String := (improper_type_coeffs ++ other_improper_type_coeffs)
+  pure ((offsets_0, offsets_1, offsets_2, offsets_3, offsets_4), atom_type_elements', atom_type_masses', atom_type_labels', pair_coeffs', bond_type_coeffs', angle_type_coeffs', dihedral_type_coeffs', improper_type_coeffs')
+
+/-- translated from `cell_is_orthorhombic` in mofun/atoms.py class Atoms; the numpy expression is expanded element by element over the 3x3 cell -/
+def cellIsOrthorhombic (cell : Mat3) : Bool :=
+  ((((((((((cell.a.x * (1 : Rat)) == cell.a.x) && ((cell.b.y * (0 : Rat)) == cell.a.y)) && ((cell.c.z * (0 : Rat)) == cell.a.z)) && ((cell.a.x * (0 : Rat)) == cell.b.x)) && ((cell.b.y * (1 : Rat)) == cell.b.y)) && ((cell.c.z * (0 : Rat)) == cell.b.z)) && ((cell.a.x * (0 : Rat)) == cell.c.x)) && ((cell.b.y * (0 : Rat)) == cell.c.y)) && ((cell.c.z * (1 : Rat)) == cell.c.z))
+
+/-- translated from `_get_positions_from_all_adjacent_unit_cells` in mofun/mofun.py (FRAGMENT: the guard that selects the general plane tests instead of the orthorhombic box test) -/
+def nearUsesPlaneTests (structure_cell : Mat3) : Bool :=
+  ((!(cellIsOrthorhombic structure_cell)) || (((decide (structure_cell.a.x ≤ (0 : Rat))) || (decide (structure_cell.b.y ≤ (0 : Rat)))) || (decide (structure_cell.c.z ≤ (0 : Rat)))))
+
+/-- translated from `_get_positions_from_all_adjacent_unit_cells` in mofun/mofun.py (FRAGMENT: the box test of the orthorhombic branch for one image position `pos`) -/
+def nearBoxTest (distance : Rat) (structure_cell : Mat3) (pos : Vec3) : Bool :=
+  ((((((decide (pos.x ≥ (-distance))) && (decide (pos.x < (distance + structure_cell.a.x)))) && (decide (pos.y ≥ (-distance)))) && (decide (pos.y < (distance + structure_cell.b.y)))) && (decide (pos.z ≥ (-distance)))) && (decide (pos.z < (distance + structure_cell.c.z))))
+
+/-- translated from `load` in mofun/atoms.py class Atoms (DISPATCH slice: the function whose result is returned — cls.load_lmpdat, cls.load_cml or cls.load_p1_cif; `none` = one of the two `raise`s; parameters: filetype, whether f is an open text file, os.path.splitext(path)) -/
+def atomsLoadSite (filetype : Option String) (f_is_file : Bool) (path_splitext : String × String) : Option String := do
+  if f_is_file then
+    match filetype with
+    | some filetype =>
+      if filetype = "lmpdat" then
+        pure "cls.load_lmpdat"
+      else if filetype = "cml" then
+        pure "cls.load_cml"
+      else if filetype = "cif" then
+        pure "cls.load_p1_cif"
+      else
+        none  -- raise
+    | none =>
+      none  -- raise
+  else
+    match filetype with
+    | some filetype =>
+      if filetype = "lmpdat" then
+        pure "cls.load_lmpdat"
+      else if filetype = "cml" then
+        pure "cls.load_cml"
+      else if filetype = "cif" then
+        pure "cls.load_p1_cif"
+      else
+        none  -- raise
+    | none =>
+      let filetype : String := path_splitext.2
+      let filetype : String := (Py.strDrop filetype 1)
+      if filetype = "lmpdat" then
+        pure "cls.load_lmpdat"
+      else if filetype = "cml" then
+        pure "cls.load_cml"
+      else if filetype = "cif" then
+        pure "cls.load_p1_cif"
+      else
+        none  -- raise
+
+/-- translated from `save` in mofun/atoms.py class Atoms (DISPATCH slice: the function whose result is returned — self.save_lmpdat, self.save_raspa_mol or self.save_p1_cif; `none` = one of the two `raise`s) -/
+def atomsSaveSite (filetype : Option String) (f_is_file : Bool) (path_splitext : String × String) : Option String := do
+  if f_is_file then
+    match filetype with
+    | some filetype =>
+      if filetype = "lmpdat" then
+        pure "self.save_lmpdat"
+      else if filetype = "mol" then
+        pure "self.save_raspa_mol"
+      else if filetype = "cif" then
+        pure "self.save_p1_cif"
+      else
+        none  -- raise
+    | none =>
+      none  -- raise
+  else
+    match filetype with
+    | some filetype =>
+      if filetype = "lmpdat" then
+        pure "self.save_lmpdat"
+      else if filetype = "mol" then
+        pure "self.save_raspa_mol"
+      else if filetype = "cif" then
+        pure "self.save_p1_cif"
+      else
+        none  -- raise
+    | none =>
+      let filetype : String := path_splitext.2
+      let filetype : String := (Py.strDrop filetype 1)
+      if filetype = "lmpdat" then
+        pure "self.save_lmpdat"
+      else if filetype = "mol" then
+        pure "self.save_raspa_mol"
+      else if filetype = "cif" then
+        pure "self.save_p1_cif"
+      else
+        none  -- raise
+
+/-- the default `repldims=(1, 1, 1)` of `replicate` -/
+def replicateCell_default_repldims : Nat × Nat × Nat := (1, 1, 1)
+
+/-- translated from `replicate` in mofun/atoms.py class Atoms (FRAGMENT: the cell of the replicated structure, `self.cell * np.array(repldims).reshape(3, 1)`) -/
+def replicateCell (cell : Mat3) (repldims : Nat × Nat × Nat) : Mat3 :=
+  (⟨(⟨(cell.a.x * ((repldims.1 : Nat) : Rat)), (cell.a.y * ((repldims.1 : Nat) : Rat)), (cell.a.z * ((repldims.1 : Nat) : Rat))⟩ : Vec3), (⟨(cell.b.x * ((repldims.2.1 : Nat) : Rat)), (cell.b.y * ((repldims.2.1 : Nat) : Rat)), (cell.b.z * ((repldims.2.1 : Nat) : Rat))⟩ : Vec3), (⟨(cell.c.x * ((repldims.2.2 : Nat) : Rat)), (cell.c.y * ((repldims.2.2 : Nat) : Rat)), (cell.c.z * ((repldims.2.2 : Nat) : Rat))⟩ : Vec3)⟩ : Mat3)
+
+/-- translated from `_delete_and_reindex_atom_index_array` in mofun/atoms.py class Atoms; `arr` is the list of rows of the 2-D index array; result = (re-indexed surviving rows, indices of the deleted rows) -/
+def deleteAndReindex (arr : List (List Nat)) (sorted_deleted_indices : List Nat) : (List (List Nat)) × (List Nat) :=
+  let updated_arr : List (List Nat) := arr
+  let arr_idx_to_delete : List Nat := []
+  let arr_idx_to_delete : List Nat := Py.forFold (Py.enumerate arr) arr_idx_to_delete (fun arr_idx_to_delete (i, atom_idx_tuple) =>
+      if (List.any (List.map (fun a => (List.contains sorted_deleted_indices a)) atom_idx_tuple) id) then
+        let arr_idx_to_delete : List Nat := (arr_idx_to_delete ++ [i])
+        arr_idx_to_delete
+      else
+        arr_idx_to_delete
+      )
+  let updated_arr : List (List Nat) := (Py.npDelete updated_arr arr_idx_to_delete)
+  let updated_arr : List (List Nat) := Py.forFold sorted_deleted_indices updated_arr (fun updated_arr i =>
+      let updated_arr : List (List Nat) := (Py.npSubWhereGt updated_arr 1 i)
+      updated_arr
+      )
+  (updated_arr, arr_idx_to_delete)
 
 end Mofun.Generated.Code
